@@ -191,7 +191,7 @@ def judge_table(chk, forms, cases, recs, known_features, cov):
             is_mem = c["ops"][i][0] == "M"
             fake = bool(flags & 0x400)
             stats["operands"] += 1
-            if f["name"] in ("vpternlogd", "vpternlogq") and i == 0 and c["ops"][-1][0] == "I" and ((c["ops"][-1][1] >> 4) & 15) == (c["ops"][-1][1] & 15):
+            if f["name"] in ("vpternlogd", "vpternlogq") and i == 0 and c["ops"][-1][0] == "I" and ((c["ops"][-1][1] >> 4) & 15) == (c["ops"][-1][1] & 15) and not c.get("masked"):
                 stats["vpternlog-destination-independent-imm"] += 1
             elif o["read"] and not (flags & 1) and not fake:
                 chk.violation("T:%s:op%d:db-read-not-reported" % (kb, i), "database says operand %d (%s) is read, query_rw_info flags=0x%x for %s" % (i, o["data"], flags, G.case_line(c)), replay)
